@@ -389,7 +389,10 @@ def serialise(rng, g, one_file=False, base_name=True, uri_rng=None, extras=True)
                         at += ' IsForward="false"'
                     elif rng.random() < 0.2:
                         at += ' IsForward="true"'
-                    out.write("<%sReference%s>%s%s</%sReference>%s" % (p, at, escape(idref(other, allow_alias=False)), rng.choice(["", "", " "]), p, ws()))
+                    txt_ = escape(idref(other, allow_alias=False))
+                    if txt_.startswith("ns=") and rng.random() < 0.15:
+                        txt_ = "\n      " + txt_          # a namespace-qualified target on a line of its own
+                    out.write("<%sReference%s>%s%s</%sReference>%s" % (p, at, txt_, rng.choice(["", "", " "]), p, ws()))
                 out.write("</%sReferences>%s" % (p, ws()))
             if n["value"] is not None:
                 out.write("<%sValue>%s%s%s</%sValue>" % (p, ws(), value_xml(n["value"], tp, rng), ws(), p))
